@@ -17,9 +17,14 @@
  * carries Block2 = 0/0/<szx>.
  *
  * Events (fields separated by ':'):
- *   reg:c:r:t:q:k:mid   client c sends GET /r<r> Observe=0, token index t, query variant q (0 none,1 "a=1",2 "b=2"),
- *                       type k (C|N), message id mid; the datagram reaches the server at once, the response reaches
- *                       the client at once
+ *   reg:c:r:t:q:k:mid[:x]  client c sends GET /r<r> Observe=0, token index t, query variant q (0 none, 1 "a=1", 2 "b=2",
+ *                       3 two Uri-Query options "a","b", 4 ONE Uri-Query option with the 4 bytes 61 0f 00 62), type k (C|N),
+ *                       message id mid; the datagram reaches the server at once, the response reaches the client at once.
+ *                       Token: t < 128 -> the 2 bytes (0xA0 + c, t), a value no other client uses; t >= 128 -> the 2 bytes
+ *                       (0x9F, t), the SAME value whichever client sends it (tokens are only unique per client endpoint).
+ *                       Optional x = further request options that are NOT part of the observation's identity (RFC 7641
+ *                       3.3/3.6: ETag; RFC 7252 5.4.2: NoCacheKey options): 0 none (default), 1 ETag 1122, 2 ETag 33,
+ *                       3 ETag 1122 + ETag 4455667788, 4 Size1 (option 60, NoCacheKey) empty, 5 ETag 33 + Size1 02
  *   can:c:r:t:q:k:mid   the same with Observe=1 (proactive cancellation)
  *   get:c:r:t:q:k:mid   the same without an Observe option
  *   chg:r               the application calls coap_resource_notify_observers(r<r>)
@@ -264,22 +269,30 @@ static void dump_state(void) {
   out("]");
 }
 
-static int send_request(int c, int r, int t, int q, int k, int mid, int observe, int blknum) {
+static int send_request(int c, int r, int t, int q, int k, int mid, int observe, int blknum, int x) {
   uint8_t tok[2]; char path[4]; uint8_t buf[4];
   coap_pdu_t *p;
-  tok[0] = (uint8_t)(0xA0 + c); tok[1] = (uint8_t)t;
+  tok[0] = (uint8_t)(t >= 128 ? 0x9F : 0xA0 + c); tok[1] = (uint8_t)t;
   p = sim_make_pdu(csess[c], k == 'C' ? COAP_MESSAGE_CON : COAP_MESSAGE_NON, COAP_REQUEST_CODE_GET, mid, tok, 2, NULL, 0);
   if (!p) return 0;
+  /* options in increasing number order: ETag 4, Observe 6, Uri-Path 11, Uri-Query 15, Block2 23, Size1 60 */
+  if (x == 1 || x == 3) coap_add_option(p, COAP_OPTION_ETAG, 2, (const uint8_t *)"\x11\x22");
+  if (x == 2 || x == 5) coap_add_option(p, COAP_OPTION_ETAG, 1, (const uint8_t *)"\x33");
+  if (x == 3) coap_add_option(p, COAP_OPTION_ETAG, 5, (const uint8_t *)"\x44\x55\x66\x77\x88");
   if (observe >= 0) coap_add_option(p, COAP_OPTION_OBSERVE, coap_encode_var_safe(buf, sizeof(buf), (unsigned)observe), buf);
   snprintf(path, sizeof(path), "r%d", r);
   coap_add_option(p, COAP_OPTION_URI_PATH, 2, (const uint8_t *)path);
   if (q == 1) coap_add_option(p, COAP_OPTION_URI_QUERY, 3, (const uint8_t *)"a=1");
   else if (q == 2) coap_add_option(p, COAP_OPTION_URI_QUERY, 3, (const uint8_t *)"b=2");
+  else if (q == 3) { coap_add_option(p, COAP_OPTION_URI_QUERY, 1, (const uint8_t *)"a"); coap_add_option(p, COAP_OPTION_URI_QUERY, 1, (const uint8_t *)"b"); }
+  else if (q == 4) coap_add_option(p, COAP_OPTION_URI_QUERY, 4, (const uint8_t *)"a\x0f\x00" "b");
   if (res_blk[r] && (blknum >= 0 || res_szx[r] >= 0)) {
     /* requests to a block-wise resource negotiate the size; blk:… asks for block <blknum> of the body in progress */
     unsigned v = ((unsigned)(blknum < 0 ? 0 : blknum) << 4) | (unsigned)(res_szx[r] < 0 ? 6 : res_szx[r]);
     coap_add_option(p, COAP_OPTION_BLOCK2, coap_encode_var_safe(buf, sizeof(buf), v), buf);
   }
+  if (x == 4) coap_add_option(p, COAP_OPTION_SIZE1, 0, NULL);
+  if (x == 5) coap_add_option(p, COAP_OPTION_SIZE1, 1, (const uint8_t *)"\x02");
   cli_reply = NULL;
   coap_send(csess[c], p);
   if (!cli_reply) return 0;
@@ -303,16 +316,17 @@ static int do_event(char *ev) {
   const char *op = f[0];
   if (!strcmp(op, "reg") || !strcmp(op, "can") || !strcmp(op, "get")) {
     int c = geti(f, nf, 1), r = geti(f, nf, 2), t = geti(f, nf, 3), q = geti(f, nf, 4), mid = geti(f, nf, 6);
-    if (nf != 7 || c < 0 || c >= ncli || r < 0 || r >= nres || t < 0 || t > 255 || q < 0 || q > 2 || mid < 0 || mid > 65535 ||
-        (f[5][0] != 'C' && f[5][0] != 'N')) return 0;
-    send_request(c, r, t, q, f[5][0], mid, op[0] == 'r' ? 0 : op[0] == 'c' ? 1 : -1, -1);
+    int x = nf == 8 ? geti(f, nf, 7) : 0;
+    if ((nf != 7 && nf != 8) || c < 0 || c >= ncli || r < 0 || r >= nres || t < 0 || t > 255 || q < 0 || q > 4 || mid < 0 || mid > 65535 ||
+        (f[5][0] != 'C' && f[5][0] != 'N') || (nf == 8 && !alldigits(f[7])) || x < 0 || x > 5) return 0;
+    send_request(c, r, t, q, f[5][0], mid, op[0] == 'r' ? 0 : op[0] == 'c' ? 1 : -1, -1, x);
     return 1;
   }
   if (!strcmp(op, "blk")) {
     int c = geti(f, nf, 1), r = geti(f, nf, 2), t = geti(f, nf, 3), q = geti(f, nf, 4), mid = geti(f, nf, 6), num = geti(f, nf, 7);
     if (nf != 8 || c < 0 || c >= ncli || r < 0 || r >= nres || !res_blk[r] || t < 0 || t > 255 || q < 0 || q > 2 || mid < 0 ||
         mid > 65535 || (f[5][0] != 'C' && f[5][0] != 'N') || !alldigits(f[7]) || num < 0 || num > 255) return 0;
-    send_request(c, r, t, q, f[5][0], mid, -1, num);
+    send_request(c, r, t, q, f[5][0], mid, -1, num, 0);
     return 1;
   }
   if (!strcmp(op, "chg")) {
